@@ -32,7 +32,7 @@ Operators == {
   Op("grid-all-three", "tabulation"), Op("grid-step-alone", "tabulation"), Op("grid-zero-nr", "tabulation"), Op("grid-negative-cutoff", "tabulation"),
   Op("grid-nonnumeric-nr", "tabulation"), Op("grid-float-nr", "tabulation"), Op("grid-nonnumeric-cutoff", "tabulation"),
   Op("rho-all-three", "tabulation"), Op("rho-step-alone", "tabulation"), Op("rho-nonnumeric", "tabulation"),
-  Op("grid-one-row", "tabulation"), Op("rho-one-row", "tabulation"), Op("dlpoly-four-rows", "tabulation"), Op("dlpoly-not-multiple-of-four", "tabulation"),
+  Op("grid-one-row", "tabulation"), Op("rho-one-row", "tabulation"), Op("dlpoly-four-rows", "tabulation"), Op("dlpoly-not-multiple-of-four", "tabulation"), Op("dlpoly-default-rows", "tabulation"),
   Op("cutoff-nan", "tabulation"), Op("cutoff-inf", "tabulation"),
   Op("table-no-data", "registry"), Op("table-x-and-xy", "registry"), Op("table-length-mismatch", "registry"), Op("table-odd-xy", "registry"),
   Op("table-nonnumeric", "registry"), Op("table-unknown-interpolation", "registry"), Op("table-empty-interpolation", "registry"),
